@@ -1,2 +1,4 @@
 //! Shared helpers for property modules.
 pub mod gens;
+pub mod memrelay;
+pub mod tcprelay;
